@@ -249,6 +249,21 @@ def probes():
     return res
 
 
+def extra_probes():
+    """values far outside (not next to) the ranges, for EVERY numeric field whether or not check() bounds it: zero, negative, tiny
+    and huge sizes -- the values with which work done BEFORE the refusal goes wrong (division by a zero size, negative counts,
+    allocation from a huge one).  Enumerations and booleans are left to IBOUNDS."""
+    out = []
+    for (g, n), t in FTYPE.items():
+        if t == "D":
+            for v in (0.0, -1.0, 0.05, -0.05, 0.5, 1.0e9):
+                out.append(((g, n), dyadic(v)))
+        elif t == "I" and n not in ("costModel", "netModel"):
+            for v in (0, -1, -2147483648, 2147483647):
+                out.append(((g, n), v))
+    return out
+
+
 def with_fields(base, assigns):
     v = dict(base)
     for key, val in assigns:
@@ -270,6 +285,9 @@ def gen_pchk(ctx, base_by_effort, rng):
         lines.append("PCHK %d " % k + ser_struct(k, with_fields(base, [(key, val)])))
         if k in (2, 3, 4):
             lines.append("PCHK 1 " + ser_struct(1, with_fields(base, [(key, val)])))
+    for (key, val) in extra_probes():
+        lines.append("PCHK 0 " + ser_struct(0, with_fields(base, [(key, val)])))
+        lines.append("PCHK %d " % OWNER[key[0]] + ser_struct(OWNER[key[0]], with_fields(base, [(key, val)])))
     nsing = len(lines)
     # pairs on different fields; quick: a seeded half of them, thorough: all
     for i in range(len(pr)):
@@ -500,18 +518,50 @@ def gen_cchk(ctx, rng):
     return lines
 
 
-def placeable_state(rng):
-    """a small sane circuit (used where a mutated /repo may accept the parameters and really place)"""
+def placeable_state(rng, H=10):
+    """a small sane circuit (used where a mutated /repo may accept the parameters and really place); cells and rows of height H
+    (1: sizes that are fractions of a cell height truncate to 0 units; 10; 2720: a real library's row height, widths scaled too)"""
     n = rng.uni(1, 4)
     s = rand_state(rng, n, nets=rng.uni(0, 2))
-    s["h"] = [10] * n
+    u = 1 if H <= 10 else H // 8
+    s["w"] = [w * u for w in s["w"]]
+    s["x"] = [x * u for x in s["x"]]
+    s["h"] = [H] * n
     s["f"] = [0] * n
     s["pol"] = [0] * n
     s["ori"] = [0] * n
-    s["y"] = [rng.choice([0, 10]) for _ in range(n)]
-    s["rows"] = [(0, 60, 0, 10, 0), (0, 60, 10, 20, 5)]
+    s["y"] = [rng.choice([0, H]) for _ in range(n)]
+    s["rows"] = [(0, 60 * u, 0, H, 0), (0, 60 * u, H, 2 * H, 5)]
     s["inuse"] = 0
     return s
+
+
+ENTER_HEIGHTS = (1, 10, 2720)
+
+
+def gen_enter_probes(ctx, base_by_effort, lines, impl):
+    """ENTER cases for EVERY probe of the tables (DBOUNDS / IBOUNDS neighbours + extra_probes) that ColoquinteParameters::check()
+    rejects when it is set alone on the defaults: all three stages x cell heights 1, 10, 2720"""
+    avail = [e for e in (3, 9, 1, 5, 7, 2, 4, 6, 8) if e in base_by_effort]
+    if not avail:
+        return [], {}
+    base = base_by_effort[avail[0]]
+    res = dict(zip(lines, impl))
+    rng = common.Rng(ctx.seed + 1907)
+    out, nrej, fields = [], 0, set()
+    allp = probes() + extra_probes()
+    for (key, val) in allp:
+        fl = ser_struct(0, with_fields(base, [(key, val)]))
+        if not res.get("PCHK 0 " + fl, "").startswith("THROW"):
+            continue
+        nrej += 1
+        fields.add(key)
+        for H in ENTER_HEIGHTS:
+            for stage in range(3):
+                out.append("ENTER %d %s %s" % (stage, ser_state(placeable_state(rng, H)), fl))
+    out = list(dict.fromkeys(out))
+    return out, {"probes": len(allp), "rejected_probes": nrej, "fields_with_a_rejected_probe": len(fields),
+                 "cell_heights": list(ENTER_HEIGHTS), "stages": 3, "cases": len(out)}
 
 
 BAD_EFFORTS = [e for e in range(-16, 33) if e < 1 or e > 9]
@@ -712,6 +762,10 @@ def oracle(case, impl, aux):
     if died(res):
         what = {"CTOR": lambda: "%s(%s)" % (KNAME[int(toks[1])], toks[2]), "SET": lambda: "setter %s" % toks[1],
                 "ENTER": lambda: "stage %s" % toks[1], "ENTERE": lambda: "stage %s with effort %s" % (toks[1], toks[-1])}
+        if tag == "ENTER" and (aux.get(case) or "").startswith("THROW"):
+            return "dies", ("stage %s entered with a parameter set that check() rejects (%s) is not refused with a catchable error before any "
+                            "placement work and without undefined behaviour: the child process died / did not finish: %s"
+                            % (toks[1], aux[case][6:90], res[:200]))
         return "dies", "%s does not end in a catchable error: %s" % (what.get(tag, lambda: tag)(), res[:200])
     if tag == "CTOR":
         k, e = int(toks[1]), int(toks[2])
@@ -809,11 +863,11 @@ def model_expect(case, model):
 
 
 # ------------------------------------------------------------------ the check
-def run_variant(variant, driver, lines):
+def run_variant(variant, driver, lines, chunk=4000):
     harness = common.build_harness("params", variant)
     if not lines:
         return harness, [], []
-    impl, model, _ = common.run_both([harness, "run"], [driver] if driver else None, lines, timeout=1200)
+    impl, model, _ = common.run_both([harness, "run"], [driver] if driver else None, lines, timeout=1200, chunk=chunk)
     return harness, impl, model
 
 
@@ -883,9 +937,14 @@ def run(ctx):
     for n in range(min(nenter, 3 * len(rejected))):
         c = rejected[rng.next() % len(rejected)] if n >= len(rejected) or n % 2 else rejected[n]
         enter.append("ENTER %d %s %s" % (n % 3, ser_state(placeable_state(rng)), c[len("PCHK 0 "):]))
+    # ... and every single rejected probe of the tables, all stages, three cell heights (one child process per ENTER case)
+    enter_probe, enter_probe_dist = gen_enter_probes(ctx, base_by_effort, lines_plain, impl_p)
+    enter = list(dict.fromkeys(enter + enter_probe))
     sets["ENTER"] = enter
-    _, impl_e, model_e = run_variant("plain", driver, enter)
-    asan_h, impl_a, model_a = run_variant("asan", None, both + enter)
+    _, impl_e, model_e = run_variant("plain", driver, enter, chunk=120)
+    asan_h, impl_a0, _ = run_variant("asan", None, both)
+    _, impl_a1, _ = run_variant("asan", None, enter, chunk=120)
+    impl_a = impl_a0 + impl_a1
     runs = [("plain", lines_plain + enter, impl_p + impl_e, model_p + model_e),
             ("asan", both + enter, impl_a, (model_p[:len(both)] + model_e))]
     nviol, nmism = 0, 0
@@ -989,6 +1048,7 @@ def run(ctx):
                 "sequence_stream": dict(pseq_dist, recorded_calls=pseq["records"], one_shot_cases_derived=pseq["oneshot"],
                                         calls_differing_from_model=len(pseq["mismatches"]), calls_violating_statement=len(pseq["violations"])),
                 "kinds": kinds, "outcomes_by_variant_kind": outcomes, "pchk_distribution": dist.get("pchk"),
+                "enter_probe_stream": enter_probe_dist,
                 "defaults_table_regenerated": changed,
                 "samples": [sets["CTOR"][0], sets["PCHK"][0] if sets["PCHK"] else "", sets["SET"][5], sets["ADDNET"][-1],
                             sets["SETNETS"][3], enter[0] if enter else "", sets["ENTERE"][0]] + pseq_cases[-1:],
@@ -996,8 +1056,14 @@ def run(ctx):
                                       "plain (assertions on) and asan (ASan+UBSan) builds; check(): every literal bound at nextafter below/at/above "
                                       "(ints b-1/b/b+1) singly on 2 bases and in pairs, relational grids, random; setters: 11 setters x n=0..%d cells x "
                                       "every length 0..n+2 x in-use; addNet: pin indices -2..n+1 exhaustive up to 2 pins x offset lengths; setNets: "
-                                      "every single malformation of a well-formed argument; stage entry: rejected parameter sets and refused efforts "
-                                      "on small circuits, state compared; sequences on one parameter object: see rule" % (3 if ctx.quick else 5),
+                                      "every single malformation of a well-formed argument; stage entry: rejected parameter sets (a seeded sample of the rejected "
+                                      "PCHK sets: singles, pairs, relational, random) and refused efforts on small circuits with cells of height 10, PLUS "
+                                      "every probe that check() rejects when set alone on the defaults -- the neighbours of every literal bound and, for every "
+                                      "numeric field, 0 / -1 / +-0.05 / 0.5 / 1e9 (doubles), 0 / -1 / INT_MIN / INT_MAX (ints) -- at all three stages on "
+                                      "circuits with cells of height 1, 10 and 2720 (enter_probe_stream); one CHILD PROCESS per ENTER / ENTERE case with a "
+                                      "30 s CPU limit: a child that is killed by a signal (SIGFPE, SIGSEGV, SIGABRT, sanitizer report) or does not finish is "
+                                      "a violation 'not refused with a catchable error before any placement work / without undefined behaviour'; state "
+                                      "compared; sequences on one parameter object: see rule" % (3 if ctx.quick else 5),
                 "model_vs_impl_differences": nmism, "impl_outputs_violating_statement": nviol,
                 "violation_categories": {"%s/%s" % k: v[4][:160] for k, v in found.items()},
                 "extraction_cross_check": "ok" if vm_bad is None else vm_bad})
